@@ -170,6 +170,8 @@ class Ref:
                             data = res.data if isinstance(res, FakeState) else res
                         else:
                             data = f(deepcopy(data), *argv, **kw)
+                            if hasattr(data, "metadata") and hasattr(data, "with_data"):
+                                data = data.data      # a command that returns its own State object: only the value counts, the variables are carried on
                     else:
                         data = f(*argv, **kw)
                 finally:
